@@ -187,7 +187,6 @@ func init() {
 				}
 			}
 			un := c.Fn("reassemblyQueue.forwardTSNForUnordered")
-			gt := c.Fn("sna32GT")
 			tsn := c.field("chunkPayloadData", "tsn")
 			// lastIdx advances only while !sna32GT(c.tsn, newCumulativeTSN)
 			okStop := false
@@ -196,8 +195,14 @@ func init() {
 				if !ok {
 					return
 				}
-				if call, ok := isCallTo(ifi.Cond, gt); ok && IsLoadOf(tsn)(call.Call.Args[0]) && IsParam(un, 1)(call.Call.Args[1]) {
-					okStop = true
+				// any serial-number comparison between a chunk's tsn and the new cumulative TSN bounds the scan
+				if call, ok := ifi.Cond.(*ssa.Call); ok && len(call.Call.Args) == 2 {
+					if w, _, isSna := snaHelper(call.Call.StaticCallee()); isSna && w == "sna32" {
+						a0, a1 := call.Call.Args[0], call.Call.Args[1]
+						if (IsLoadOf(tsn)(a0) && IsParam(un, 1)(a1)) || (IsLoadOf(tsn)(a1) && IsParam(un, 1)(a0)) {
+							okStop = true
+						}
+					}
 				}
 			})
 			c.Check(okStop, "unordered-purge-stops", c.P.Pos(un.Pos()), "unordered purge stops at the first chunk with sna32GT(tsn, newCumulativeTSN)", "unordered purge is not bounded by the new cumulative TSN")
